@@ -109,12 +109,28 @@ def run(pid, jobs=None):
     summary = {"breaking_variants": n_break, "fired": fired, "preserving_variants": n_keep, "silent": silent,
                "skipped": skipped, "misses": [m[0] for m in misses]}
     print("selftest property=%s fired %d/%d, silent %d/%d, skipped %d" % (pid, fired, n_break, silent, n_keep, skipped))
+    # sensitivity sweep: a seeded sample of automatically generated first-order mutants of the anchored functions
+    sweep = None
+    try:
+        import importlib
+        mod = importlib.import_module("tmverif.props." + pid.lower())
+        anchors = getattr(mod, "ANCHORS", [])
+        if anchors:
+            from . import mutate
+            seed = int(os.environ.get("VERIF_SEED", "0") or 0)
+            sweep = mutate.sample_sweep(pid, anchors, k=int(os.environ.get("TMVERIF_SWEEP", "48")), seed=seed)
+            print("sensitivity sweep property=%s sampled %d of %d mutants: %s" % (pid, sweep["sampled"], sweep["mutants_available"], sweep["counts"]))
+    except Exception as e:
+        print("sensitivity sweep skipped: %s" % e)
     # fold into the evidence file written by the property run
     path = os.path.join(core.EVIDENCE, pid + ".json")
     try:
         ev = json.load(open(path))
         ev["tier"] = "thorough"
         ev["coverage"]["selftest"] = summary
+        ev["coverage"]["sensitivity_sweep"] = sweep
+        if sweep:
+            ev["coverage"]["evaluations"] = ev["coverage"].get("evaluations", 0) + sweep["sampled"]
         ev["coverage"]["evaluations"] = ev["coverage"].get("evaluations", 0) + len(cases) - skipped
         with open(path, "w") as f:
             json.dump(ev, f, indent=1)
